@@ -172,6 +172,19 @@ def run(tier, seed):
                 if pz["path"] != m["pause"]["path"] or pz["key"] != m["pause"]["key"] or pz["value"] != m["pause"]["value"]:
                     ctx.violation("pause-info", wit, f"pause {pz} expected {m['pause']}")
                     continue
+                # everything shown to the human: with several inputs `values` maps every CURRENT input name to the value the
+                # handler received for the parameter behind it; with several outputs `output_params` lists the keys to answer
+                last = [c for c in o["calls"] if c["path"] == pz["path"]][-1]
+                by_orig = dict(map(tuple, last["args"]))
+                pm = dict(map(tuple, node["pmap"]))
+                want_vals = {cur: by_orig[pm[cur]] for cur in node["inputs"]} if len(node["inputs"]) > 1 else None
+                if pz.get("values") != want_vals:
+                    ctx.violation("pause-values", wit, f"pause.values {pz.get('values')} but the handler received {want_vals} (by current input name)")
+                    continue
+                want_keys = node["outputs"][: node["ndata"]] if node["ndata"] > 1 else None
+                if pz.get("output_params") != want_keys:
+                    ctx.violation("pause-output-params", wit, f"pause.output_params {pz.get('output_params')} expected {want_keys}")
+                    continue
                 if pz["response_key"] != pz["key"]:
                     ctx.violation("response-key", wit, f"top-level response key {pz['response_key']} != output {pz['key']}")
                     continue
